@@ -11,11 +11,11 @@ _PROGS = {}
 SIZE = {"quick": 2, "thorough": 3}
 
 
-def all_programs(tier, size=None, only=None, must=None, key=None):
-    k = key or (tier, size, only and tuple(sorted(only)), must and tuple(sorted(must)))
+def all_programs(tier, size=None, only=None, must=None, key=None, tails=(True,)):
+    k = key or (tier, size, only and tuple(sorted(only)), must and tuple(sorted(must)), tails)
     if k not in _PROGS:
         out = []
-        for p in M.programs(size or SIZE[tier], tier, only=only, must=must):
+        for p in M.programs(size or SIZE[tier], tier, only=only, must=must, tails=tails):
             try:
                 compile(p.src, "<minipy>", "exec")
             except SyntaxError:
@@ -287,9 +287,9 @@ def probe_run(prog, info, selectors, x, driver, part=None, kind="inst", raw=Fals
     def sub(i):
         def on(ev):
             if raw:
-                streams[i].append({k: (tuple(c.names), tuple(P.freeze(v, 0, True) for v in c.values)) for k, c in ev.items()})
+                streams[i].append({k: (tuple(c.names), tuple(P.freeze(v) for v in c.values)) for k, c in ev.items()})
             else:
-                streams[i].append({k: P.freeze(v, 0, True) for k, v in ev.items()})
+                streams[i].append({k: P.freeze(v) for k, v in ev.items()})
         return on
 
     try:
